@@ -6,11 +6,11 @@ use crate::oracle::pattern as opat;
 use crate::rng::{hash_strs, Rng};
 use pkgsrc::Pattern;
 
-const LITS: [&str; 10] = ["a", "b", "c", "d", "ab", "-", "1", "x", "", ""];
+const LITS: [&str; 12] = ["a", "b", "c", "d", "ab", "-", "1", "x", "", "", "?", "a?"];
 /// Rare literals that make an expansion invalid (unclosed '[', too many or
 /// wrongly ordered operators) or change its kind, so that invalid and valid
 /// expansions are mixed inside one alternation.
-const ODD_LITS: [&str; 8] = ["[", ">1>", "<2>", "<", "*", "?", "[0-9]", ">=1<2<3"];
+const ODD_LITS: [&str; 12] = ["[", ">1>", "<2>", "<", "*", "?", "[0-9]", ">=1<2<3", ">=1", "<2", ">1.", "<=0."];
 
 /// (tail text in the pattern, concrete suffixes for names: matching first)
 const TAILS: [(&str, &[&str]); 13] = [
@@ -289,7 +289,7 @@ fn brace_stats(p: &str) -> (usize, usize) {
 
 pub fn run(cx: &mut Cx) {
     cx.default_budget();
-    for k in ["compile/nested", "compile/not-nested", "verdict/match", "verdict/no-match", "names/mispairing-not-in-expansion", "names/through-a-class-around-a-group", "workload/meta-digrams", "depth/2", "depth/3", "groups/3"] {
+    for k in ["compile/nested", "compile/not-nested", "verdict/match", "verdict/no-match", "names/mispairing-not-in-expansion", "names/through-a-class-around-a-group", "names/from-the-language-of-an-expansion", "workload/meta-digrams", "depth/2", "depth/3", "groups/3"] {
         cx.ev.require(k);
     }
     if cx.tier != Tier::Mini {
@@ -342,6 +342,7 @@ pub fn run(cx: &mut Cx) {
         let mut names: Vec<String> = vec![];
         let mut mis_outside = 0u64;
         let mut class_names = 0u64;
+        let mut lang_names = 0u64;
         if opat::braces_nested(&g.prefix) {
             let exps = opat::expand(&g.prefix);
             let truth: std::collections::HashSet<&String> = exps.iter().collect();
@@ -374,6 +375,31 @@ pub fn run(cx: &mut Cx) {
                 names.push(j.replace("[0-9]*", "1").replace(">=", "-").replace('>', "-").replace('<', "-"));
             }
         }
+        // names from the language of the whole expansions: a glob expansion is
+        // sampled (wildcards filled with multi-byte characters too), a
+        // comparison expansion gets its base with versions around its bounds
+        if opat::braces_nested(&p) && !p.contains("{}") {
+            let full = opat::expand(&p);
+            let take = cx_take(&mut r, full.len(), 6);
+            for &i in &take {
+                let e = &full[i];
+                if !e.contains('<') && !e.contains('>') {
+                    if let opat::GlobParse::Ok(toks) = opat::parse_glob(e) {
+                        for _ in 0..2 {
+                            names.push(opat::sample_glob(&mut r, &toks));
+                            lang_names += 1;
+                        }
+                    }
+                } else if let opat::DeweyParse::Ok(d) = opat::parse_dewey(e) {
+                    for (_, b) in &d.bounds {
+                        for v in [b.clone(), format!("{b}.1"), format!("{b}nb1"), b.chars().take(b.chars().count().saturating_sub(1)).collect(), "0".to_string(), "999".to_string()] {
+                            names.push(format!("{}-{v}", d.base));
+                            lang_names += 1;
+                        }
+                    }
+                }
+            }
+        }
         names.push(String::new());
         names.sort();
         names.dedup();
@@ -389,6 +415,7 @@ pub fn run(cx: &mut Cx) {
             |ev| {
                 ev.add("names/mispairing-not-in-expansion", mis_outside);
                 ev.add("names/through-a-class-around-a-group", class_names);
+                ev.add("names/from-the-language-of-an-expansion", lang_names);
                 ev.max("max/work-units(names x expansions x groups)", work);
                 ev.count("workload/trees");
                 check_case(ev, &p, &names, groups, depth)
